@@ -239,6 +239,8 @@ class NetworkGraph(AbstractBaseIR):
                                                       buffer_id=f"_out{i}")
                         else:
                             for i, (edge, delay, node) in enumerate(zip(scalar_edges, delays, nodes)):
+                                if not delay and not dde_approx:
+                                    continue  # undelayed edge: keeps reading the source variable itself
                                 self._add_edge_buffer(node_name, op_name, var_name, edges=[edge], delays=[delay],
                                                       nodes=[node], dde_approx=dde_approx, buffer_id=f"_out{i}")
 
@@ -315,7 +317,7 @@ class NetworkGraph(AbstractBaseIR):
             # extract delay
             d = self.edges[s, t, e]['delay']
             if type(d) is list:
-                d = [1 if d_tmp is None else d_tmp for d_tmp in d]
+                d = [0 if d_tmp is None else d_tmp for d_tmp in d]
 
             # extract and process delay distribution spread
             v = self.edges[s, t, e].pop('spread', [0])
@@ -328,8 +330,9 @@ class NetworkGraph(AbstractBaseIR):
                 v = self._process_delays(v, discretize=discretize)
 
             # finalize edge delay
+            # edges without a delay read slot 0 of a delay buffer, i.e. the current value of their source
             if d is None or np.sum(d) == 0:
-                d = [1] * n_slots
+                d = [0] * n_slots
             else:
                 d = self._process_delays(d, discretize=discretize)
 
@@ -660,7 +663,7 @@ class NetworkGraph(AbstractBaseIR):
 
             buffer_eqs = []
             for i, (d, sidx) in enumerate(zip(delays, source_idx)):
-                var_delayed = f"past({var}, {d})" if type(d) is float or d != 1 else var
+                var_delayed = f"past({var}, {d})" if d != 0 else var
                 if len(target_shape) < 1 or (len(target_shape) == 1 and target_shape[0] == 1):
                     buffer_eqs.append(f"{var}_buffered{buffer_id} = {var_delayed}")
                 else:
